@@ -241,6 +241,12 @@ def run(ctx, canary=False):
             inst, mode, oracle, iters = nested_instance(rng, triples=other), "given", ("convex" if not other else ["approx", "pairwise"][(k // 24) % 2]), 200
         elif k % 8 == 1:
             inst, mode, iters = nested_accurate_instance(rng), "given", 200
+        elif k % 16 == 2:
+            # tens of millions of records measured with unit noise on small disjoint tables: the first step sizes are far too
+            # large, the controller has to restart many times before it finds one that works
+            inst, mode = disjoint_instance(rng), "exact"
+            inst = dict(inst, x=[v * 3e6 for v in inst["x"]], meas=[dict(m_, y=[v * 3e6 for v in m_["y"]]) for m_ in inst["meas"]])
+            iters = 1500
         else:
             inst = E.gen_instance(rng, nattr=rng.choice([3, 4]), max_meas=4, zeros_prob=0.0, allow_empty=False,
                                   kinds=["identity", "none", "twice", "total", "id+total", "prefix"])
